@@ -795,3 +795,64 @@ add("m19o", ["C19"], (P, """        self.update([job])
 add("b22", ["C19"], (Q, """        if not sequences_or_jobs:
             return
 """, ""), expect='silent')
+
+# ------------------------------------------------------------------ C20
+add("m20a", ["C20"], (D, """        result = string.replace('"', r'\\"')""", """        result = string"""), rules=["R20.1"])
+add("m20b", ["C20"], (P, """                result += job.repr_id()
+                result += ' [{}]\\n'.format(job.dot_style())""", """                result += job.repr_id()
+                result += ' [label={}]\\n'.format(job._get_graph_label())"""), rules=["R20.1"])
+add("m20c", ["C20"], (P, """                        result += ("{} -> {};\\n"
+                                   .format(req.repr_id(), job.repr_id()))""", """                        result += ("{} -> {};\\n"
+                                   .format(job.repr_id(), req.repr_id()))"""), rules=["R20.2"])
+add("m20d", ["C20"], (P, """                        result += ("{} -> {};\\n"
+                                   .format(req.repr_id(), job.repr_id()))""", """                        pass"""), rules=["R20.2"])
+add("m20d2", ["C20"], (P, """                        result += ("{} -> {};\\n"
+                                   .format(req.repr_id(), job.repr_id()))""", """                        result += ("{} -> {};\\n"
+                                   .format(req.repr_id(), job.repr_id()))
+                        result += ("{} -> {};\\n"
+                                   .format(req.repr_id(), job.repr_id()))"""), rules=["R20.2"])
+add("m20e", ["C20"], (P, """        self._set_sched_ids()
+        return "digraph asynciojobs" + self._dot_body(DotStyle())""", """        return "digraph asynciojobs" + self._dot_body(DotStyle())"""),
+    rules=["R20.3"])
+add("m20f", ["C20"], (P, """        result += "}\\n"
+        return result""", """        return result"""), rules=["R20.5"])
+add("m20g", ["C20"], (P, """                        result += ("{} -> {} [lhead={}];\\n"
+                                   .format(req.repr_id(),
+                                           job._middle_entry_job().repr_id(),
+                                           cluster_name))""", """                        result += ("{} -> {} [ltail={}];\\n"
+                                   .format(req.repr_id(),
+                                           job._middle_entry_job().repr_id(),
+                                           cluster_name))"""), rules=["R20.2"])
+add("m20h", ["C20"], (P, """                                   .format(req._middle_exit_job().repr_id(),
+                                           job._middle_entry_job().repr_id(),
+                                           cluster_name,
+                                           src_cluster_name))""", """                                   .format(req._middle_exit_job().repr_id(),
+                                           job._middle_entry_job().repr_id(),
+                                           src_cluster_name,
+                                           cluster_name))"""), rules=["R20.2"])
+add("m20i", ["C20"], (S, """        return "cluster_{}"\\
+               .format(self._sched_id)""", """        return "sub_{}"\\
+               .format(self._sched_id)"""), rules=["R20.2"])
+add("m20j", ["C20"], (S, """        i = AbstractJob._set_sched_id(self,
+                                      start, id_format)
+        # go on with the jobs in sub scheduler
+        return PureScheduler._set_sched_ids(self,
+                                            i, id_format)""", """        i = AbstractJob._set_sched_id(self,
+                                      start, id_format)
+        PureScheduler._set_sched_ids(self, i, id_format)
+        return i"""), rules=["R20.3"])
+add("m20k", ["C20"], (D, """        if isinstance(value_s, list):
+            return DotStyle.protect(format(",".join(v for v in value_s)))""", """        if isinstance(value_s, list):
+            return format(",".join(v for v in value_s))"""), rules=["R20.1"])
+add("m20l", ["C20"], (P, """                        from_node = req._middle_exit_job()
+                        cluster_name = req.dot_cluster_name()
+                        result += ("{} -> {} [ltail={}];\\n"
+                                   .format(from_node.repr_id(),""", """                        from_node = req
+                        cluster_name = req.dot_cluster_name()
+                        result += ("{} -> {} [ltail={}];\\n"
+                                   .format(from_node.repr_id(),"""), rules=["R20.2"])
+add("m20m", ["C20"], (P, """        result += "compound=true;\\n\"""", """        result += "compound=true\\n\""""), rules=["R20.5"])
+add("b23", ["C20"], (D, """        # and put double quotes around all this
+        return '"{}"'.format(result)""", """        return '"' + result + '"'"""), expect='silent')
+add("b24", ["C20"], (P, """        result = ""
+        result += "{\\n\"""", """        result = "{\\n\""""), expect='silent')
